@@ -796,14 +796,24 @@ class Director(object):
 # runs, minimisation, replay
 
 def run_ops(athlib, check, ops):
-    """Replay explicit ops. Returns (violation or None, executor)."""
+    """Replay explicit ops. Returns (violation or None, executor).
+
+    After a Stop (a case the rule text leaves open: the model no longer predicts) only the
+    model-independent recovery / re-scheduling ops that follow are still executed - exactly what the
+    director does with its final battery."""
     ex = Executor(athlib, check)
+    stopped = False
     try:
         for op in ops:
-            ex.step(op)
+            if stopped and op[0] not in ('crash_log', 'crash_card', 'resched'):
+                continue
+            try:
+                ex.step(op)
+            except Stop:
+                stopped = True
     except Violation as v:
         return v, ex
-    except (Abandon, Stop):
+    except Abandon:
         return None, ex
     return None, ex
 
@@ -880,6 +890,7 @@ def worker_fn(check, tier_, master, n_runs, budget_s=None):
         hists = set(); nt = set(); states = set(); tbl = Counter()
         viols = {}
         samples = []
+        rd = [0]
         t0 = time.monotonic()
         for i in range(wi, n_runs, nw):
             if budget_s and (i & 255) == wi and time.monotonic() - t0 > budget_s:
@@ -887,6 +898,7 @@ def worker_fn(check, tier_, master, n_runs, budget_s=None):
                 break
             seed = common.run_seed(check, master, i)
             v, ex, d = one_run(athlib, check, tier_, seed, st)
+            rd[0] = (rd[0] + common.run_digest_term(i, [ex.digest(), v.cls if v else None])) & ((1 << 64) - 1)
             st.inc('runs')
             if check == 'C03':
                 key = hash((ex.c.state, tuple(sorted((str(j.bib), tuple(j.attempts_by_height), j.place)
@@ -910,7 +922,8 @@ def worker_fn(check, tier_, master, n_runs, budget_s=None):
                                 'final_state': ex.c.state,
                                 'card': [list(map(str, row)) for row in ex.c.to_matrix()] if ex.c.jumpers else [],
                                 'places': {str(k): v2 for k, v2 in ex.places().items()}})
-        return {'st': st, 'hists': hists, 'nt': nt, 'states': states, 'tbl': tbl, 'viols': viols, 'samples': samples}
+        return {'st': st, 'hists': hists, 'nt': nt, 'states': states, 'tbl': tbl, 'viols': viols, 'samples': samples,
+                'rd': rd[0]}
     return w
 
 
@@ -954,7 +967,9 @@ def main(check, tier_):
     nw = common.ncpu()
     parts = common.run_pool(worker_fn(check, tier_, master, n_runs, budget), nw, wall_cap=cfg['wall'])
     st = Counter(); tbl = Counter(); hists = set(); nt = set(); states = set(); viols = {}; samples = []
+    rd = 0
     for p in parts:
+        rd = (rd + p['rd']) & ((1 << 64) - 1)
         st.merge(p['st']); tbl.merge(p['tbl']); hists |= p['hists']; nt |= p['nt']; states |= p['states']
         samples += p['samples']
         for cls, v in p['viols'].items():
@@ -1006,6 +1021,7 @@ def main(check, tier_):
         'violation_classes': sorted(viols),
         'known_findings_matched': len(klines),
         'determinism': det,
+        'all_runs_digest': '%016x' % rd,
         'components': {'real': ['athlib.highjump (working tree)', 'decimal'],
                        'simulated': ['officials, athletes (scripted personas), jumping-order scheduler, heckler, crash injector'],
                        'stub': []},
